@@ -18,7 +18,7 @@ NEEDS = {
  "C12e-2": "a cursor fresh from Cursor()/Ceil() whose path slice is exactly at capacity, Forward into a right subtree >= 2 levels deep, fault on the 2nd or later Load (undo written through a stale pointer after append reallocated)",
  "C16e-1": "a persisted root that is still a link name, no NodeCache, a layer-0 key: Get loads the root twice (height+2 Loads)",
  "C16e-2": "height > 0, a top node with exactly one key and a left child, no NodeCache: checkRoot loads that child, LoadMast reads 2 nodes",
- "C09e-1": "", "C09e-2": "",
+ "C09e-1": "a Delete that empties a node whose ancestors on the path are entry-less pass-through nodes (or become empty with it): savePathForRoot unlinks only the last node of the path when it is empty, so emptied ancestors stay linked as entry-less, child-less stored nodes", "C09e-2": "",
 }
 for f in sorted([x for x in glob.glob("/tmp/r5-eval/C??e-?.json")]):
     sid = os.path.basename(f)[:-5]
